@@ -83,7 +83,7 @@ def run(prog: Program, chk: Check):
     gs = flow.guard_states(g)
 
     # ---- R1 recipient source ---------------------------------------------------------------
-    R1 = chk.rule("C01-R1", "recipients come exactly from subscriptions[header.msg_type] and subscriptions[ALL_MESSAGE_TYPES]", 2,
+    R1 = chk.rule("C01-R1", "recipients come exactly from subscriptions[header.msg_type] and subscriptions[ALL_MESSAGE_TYPES]", 1,
                   "recipients == subscribers(type) U subscribers(all); any other source adds non-subscribers, a missing one loses subscribers")
     for n, c, rv in sends:
         leaves = dataflow.source_closure(fm.node, recv_of(c))
@@ -146,7 +146,7 @@ def run(prog: Program, chk: Check):
     chk.units["recipient_narrowings"] = nnar
 
     # ---- R2 destination filter -----------------------------------------------------------------
-    R2 = chk.rule("C01-R2", "every send is dominated by dest_mod_id == 0 or module.mod_id == dest_mod_id or module.is_logger", 2,
+    R2 = chk.rule("C01-R2", "every send is dominated by dest_mod_id == 0 or module.mod_id == dest_mod_id or module.is_logger", 1,
                   "otherwise an addressed message reaches modules other than the addressee and the loggers")
     for n, c, rv in sends:
         goal = guards.parse(f"{hdr_p}.dest_mod_id == 0 or {rv}.mod_id == {hdr_p}.dest_mod_id or {rv}.is_logger")
